@@ -568,7 +568,7 @@ impl Default for Pattern {
         RawFile('../u_ast/ast_types.rs'),
         Struct(F_CAST, 'ComparableAst', derive=[]),
         Raw('''
-// TRUSTED: `impl PartialEq for ComparableAst` (compares the Display strings of class nodes, `c`/`kind` of literals): it IS same_class
+// contract PROVED in unit U-reg (`impl PartialEq for ComparableAst` computes same_class as defined in units/common/same_class_def.rs); same_class is abstract here
 impl PartialEq for ComparableAst {
     #[verifier::external_body]
     fn eq(&self, other: &Self) -> (r: bool) ensures r == same_class(self.0, other.0) { unimplemented!() }
@@ -586,7 +586,7 @@ pub assume_specification<'a, T, P: FnMut(&'a T) -> bool>[ <std::slice::Iter<'a, 
         forall|g: spec_fn(T) -> bool, i: int| #![trigger models_pred(p, g), (*old(it)).remaining()[i]]
             models_pred(p, g) && 0 <= i < (*old(it)).remaining().len() && (r matches Some(k) ==> i <= k)
                 ==> g(*(*old(it)).remaining()[i]) == (r matches Some(k) && i == k);
-''', label='trusted: ComparableAst::eq is same_class; Iterator::position contract'),
+''', label='ComparableAst::eq is same_class (contract proved in unit U-reg); trusted: Iterator::position contract'),
         Struct(F_CC, 'CharacterClass', derive=[]),
         Struct(F_REG, 'CharacterClassRegistry', derive=[]),
         Raw('''
@@ -618,6 +618,7 @@ pub assume_specification[ <Span as Clone>::clone ](a: &Span) -> (r: Span)
         Struct(F_NFA, 'NfaState', derive=[]),
         Struct(F_NFA, 'Nfa', derive=[]),
         RawFile('nfa_spec.rs'),
+        RawFile('same_class_decl.rs'),
         RawFile('nfa_thompson.rs'),
         Raw('''
 pub open spec fn targets_below(s: StateV, bound: int) -> bool {
